@@ -116,7 +116,12 @@ class SArr:
     def write_region(self, in_region, newval):
         """A[idx] = newval(idx) where in_region(idx) (Sym bool / bool) else old."""
         if self.base is not None:
-            raise Unsupported("region write through view")
+            inv = getattr(self, 'inv_map', None)
+            if inv is None:
+                raise Unsupported("region write through view")
+            self.base.write_region(lambda b: in_region(inv(b)), lambda b: newval(inv(b)))
+            self.writes += 1
+            return
         old = self._fn
 
         def fn(idx, old=old):
@@ -817,7 +822,9 @@ def transpose(a):
     if a.base is not None:
         inner = a.vmap
         return SArr(sh, None, a.dtype, base=root, vmap=lambda idx: inner(tuple(reversed(idx))))
-    return SArr(sh, None, a.dtype, base=a, vmap=lambda idx: tuple(reversed(idx)))
+    r = SArr(sh, None, a.dtype, base=a, vmap=lambda idx: tuple(reversed(idx)))
+    r.inv_map = lambda b: tuple(reversed(b))        # transposition is its own inverse: writes through the view are supported
+    return r
 
 
 def concatenate(arrs, axis=0):
